@@ -183,15 +183,29 @@ class ConverterToPDDLString(walkers.DagWalker):
         return self.walk(self.simplifier.simplify(expression))
 
     def convert_fraction(self, frac):
+        # A rational with a finite decimal expansion (denominator 2^a * 5^b) is
+        # printed exactly, in positional notation, whatever its number of digits.
+        exp2, exp5, den = 0, 0, frac.denominator
+        while den % 2 == 0:
+            den //= 2
+            exp2 += 1
+        while den % 5 == 0:
+            den //= 5
+            exp5 += 1
+        if den == 1:
+            scale = max(exp2, exp5)
+            digits = str(abs(frac.numerator) * 10**scale // frac.denominator)
+            digits = digits.rjust(scale + 1, "0")
+            int_part = digits[: len(digits) - scale]
+            frac_part = digits[len(digits) - scale :] or "0"
+            return f"{'-' if frac < 0 else ''}{int_part}.{frac_part}"
         with localcontext() as ctx:
             ctx.prec = self.DECIMAL_PRECISION
             dec = frac.numerator / Decimal(frac.denominator, ctx)
-
-            if Fraction(dec) != frac:
-                warn(
-                    "The PDDL printer cannot exactly represent the real constant '%s'"
-                    % frac
-                )
+            warn(
+                "The PDDL printer cannot exactly represent the real constant '%s'"
+                % frac
+            )
             return float(dec)
 
     def walk_exists(self, expression, args):
